@@ -5,6 +5,7 @@ import "github.com/mmcloughlin/avo/ir"
 func init() { props["C02"] = c02 }
 
 func c02(c *Ctx) {
+	defer emitLargeCases(c, largeProgs("loop with", "32-bit", "sum of"))
 	defer maskSetFile(c)                            // reg/set.go: the set algebra liveness is computed with
 	defer declaredActionsCheck(c, "liveness", true) // the reads/writes liveness starts from include the implicit operands
 	rng := NewRNG(c.Seed)
